@@ -28,6 +28,9 @@ type keySpec struct {
 	TrimD   bool           `json:"trim_d,omitempty"` // d without its leading zero bytes (what NewKeyFromPrivate stores: big.Int.Bytes(); d is emitted as held)
 	Shape   int            `json:"shape,omitempty"`  // EC2: 0 x,y(,d); 1 d only; 2 x only (y absent); 3 y as bool (compressed point, RFC 9053 7.1.1)
 	SymK    rc.Hex         `json:"k,omitempty"`
+	// Zero (EC2): coordinates that are numerically zero - 1 x, 2 y, 3 x and y, 4 d, 5 all three. No point of the
+	// curve, but a key object a caller can build and the decoder accepts (lengths are all the decoder looks at)
+	Zero int `json:"zero,omitempty"`
 }
 
 func crvOf(km refcose.KeyMat) int64 {
@@ -61,6 +64,18 @@ func (k *keySpec) val() rc.Val {
 		priv.X.FillBytes(x)
 		priv.Y.FillBytes(y)
 		priv.D.FillBytes(d)
+		switch k.Zero {
+		case 1:
+			x = make([]byte, size)
+		case 2:
+			y = make([]byte, size)
+		case 3:
+			x, y = make([]byte, size), make([]byte, size)
+		case 4:
+			d = make([]byte, size)
+		case 5:
+			x, y, d = make([]byte, size), make([]byte, size), make([]byte, size)
+		}
 		if k.Trim {
 			x, y = trimZeros(x), trimZeros(y)
 		}
@@ -136,6 +151,9 @@ func genKeySpec(t *rapid.T) keySpec {
 		k.TrimD = rapid.IntRange(0, 2).Draw(t, "trim-d") == 0
 		if rapid.IntRange(0, 4).Draw(t, "odd-shape") == 0 {
 			k.Shape = rapid.IntRange(1, 3).Draw(t, "shape")
+		} else if rapid.IntRange(0, 7).Draw(t, "zero-coordinates") == 0 {
+			k.Zero = rapid.IntRange(1, 5).Draw(t, "zero")
+			stats.Class("key/zero-coordinates")
 		}
 	}
 	k.Private = rapid.Bool().Draw(t, "private")
